@@ -4,6 +4,7 @@
 mod util;
 mod c14;
 mod geom;
+mod c12;
 
 use std::path::PathBuf;
 use util::Args;
@@ -40,6 +41,7 @@ fn main() {
         "c14" => c14::main(&args),
         "c10" => geom::main_c10(&args),
         "c11" => geom::main_c11(&args),
+        "c12" => c12::main(&args),
         p => { eprintln!("unknown property {}", p); std::process::exit(2); }
     };
     if let Err(e) = r {
